@@ -55,8 +55,8 @@ func verifHashOfTag(tag byte) []byte {
 	return h
 }
 
-func verifEmptyHash() share.DataHash               { return verifHashOfTag(0xEE) }
-func verifEmptyRoots() *share.AxisRoots            { return verifEmptyRootsV }
+func verifEmptyHash() share.DataHash            { return verifHashOfTag(0xEE) }
+func verifEmptyRoots() *share.AxisRoots         { return verifEmptyRootsV }
 func verifEmptyEDS() *rsmt2d.ExtendedDataSquare { return verifEmptySq }
 
 func verifGetProof(ctx context.Context, g blockservice.BlockGetter, root []byte, shareIdx, total int) (nmt.Proof, error) {
@@ -277,4 +277,62 @@ func VerifH_C07_CrashNeverLeavesAReadableButWrongBlock() {
 		_, ok2 := veriffs.Paths["/s/blocks/"+hash.String()+".q4"]
 		nd.Assert(!ok1 && !ok2, "removal-leaves-no-files-behind")
 	}
+}
+
+// A put that fails because one file-system operation reports an error (a
+// transient I/O fault - the process lives on) is reported as failed and leaves
+// nothing behind: neither the existence check nor a lookup - from the recent
+// cache or from disk - serves the height, and putting the block again
+// succeeds and leaves it fully readable.
+//
+//verif:opts nopanic nodeadlock noreplay preempt=1 maxwall=1500 cover=failed,completed,cached,uncached,ods-only,with-q4
+func VerifH_C07_FailedPutLeavesNothingBehind() {
+	verifSetup()
+	const k, tag, height = 2, 0x21, 7
+	ctx := context.Background()
+	ns := libshare.MustNewV0Namespace([]byte("c07-ns"))
+	cells, sq := shwap.VerifModelSquare(k, 4, ns)
+	roots := verifTaggedRoots(tag, 2*k)
+	verifRootsOf[sq] = roots
+	params := &Parameters{RecentBlocksCacheSize: nd.Choice(2, "recentCache")}
+	if params.RecentBlocksCacheSize > 0 {
+		nd.Cover("cached")
+	} else {
+		nd.Cover("uncached")
+	}
+	st, err := NewStore(params, "/s")
+	nd.Assert(err == nil, "store-opens")
+
+	withQ4 := nd.Choice(2, "withQ4") == 1
+	veriffs.FailAt = veriffs.Steps + nd.Choice(8, "failAt")
+	if withQ4 {
+		nd.Cover("with-q4")
+		err = st.PutODSQ4(ctx, roots, height, sq)
+	} else {
+		nd.Cover("ods-only")
+		err = st.PutODS(ctx, roots, height, sq)
+	}
+	failed := veriffs.Failed
+	veriffs.FailAt = -1
+	if !failed {
+		nd.Cover("completed")
+		nd.Assert(err == nil, "operation-without-a-fault-succeeds")
+	} else {
+		nd.Cover("failed")
+	}
+	has, herr := st.HasByHeight(ctx, height)
+	nd.Assert(herr == nil, "existence-check-works")
+	acc, gerr := st.GetByHeight(ctx, height)
+	if err != nil {
+		nd.Assert(!has, "a-failed-put-leaves-nothing-stored")
+		nd.Assert(gerr != nil && errors.Is(gerr, ErrNotFound), "a-failed-put-leaves-nothing-stored")
+	} else {
+		nd.Assert(has && gerr == nil, "a-successful-put-is-readable")
+		verifReadsCorrect(acc, cells, k, roots, tag)
+	}
+	// storing the block again succeeds and leaves it fully readable
+	nd.Assert(st.PutODSQ4(ctx, roots, height, sq) == nil, "re-put-after-a-failed-put-succeeds")
+	acc, gerr = st.GetByHeight(ctx, height)
+	nd.Assert(gerr == nil, "re-put-block-is-readable")
+	verifReadsCorrect(acc, cells, k, roots, tag)
 }
